@@ -142,7 +142,9 @@ func (ab *AccessBarrier) doCleanup() {
 		}
 
 		ab.freeSeqno++
+		verifYield(13) // verif: doCleanup before callback
 		ab.callb(bs.objectRef)
+		verifYield(14) // verif: doCleanup after callback
 		ab.freeq.DeleteNode(node, CompareBS, buf2, &ab.freeq.Stats)
 		ab.numFreed++
 	}
@@ -153,7 +155,9 @@ func (ab *AccessBarrier) Acquire() *BarrierSession {
 	if ab.active {
 	retry:
 		bs := (*BarrierSession)(atomic.LoadPointer(&ab.session))
+		verifYield(4) // verif: Acquire after session load
 		liveCount := atomic.AddInt32(bs.liveCount, 1)
+		verifYield(5) // verif: Acquire after count add
 		if liveCount > barrierFlushOffset {
 			ab.Release(bs)
 			goto retry
@@ -169,9 +173,11 @@ func (ab *AccessBarrier) Acquire() *BarrierSession {
 func (ab *AccessBarrier) Release(bs *BarrierSession) {
 	if ab.active {
 		liveCount := atomic.AddInt32(bs.liveCount, -1)
+		verifYield(6) // verif: Release after count add
 		if liveCount == barrierFlushOffset {
 			buf := ab.freeq.MakeBuf()
 			defer ab.freeq.FreeBuf(buf)
+			verifYield(7) // verif: Release before closed latch
 
 			// Accessors which entered a closed barrier session steps down automatically
 			// But, they may try to close an already closed session.
@@ -179,8 +185,11 @@ func (ab *AccessBarrier) Release(bs *BarrierSession) {
 				if !ab.freeq.Insert(unsafe.Pointer(bs), CompareBS, buf, &ab.freeq.Stats) {
 					panic("unable to insert barrier session into free list")
 				}
+				verifYield(8) // verif: Release after queue insert
+				verifYield(9) // verif: Release before try-lock
 				if atomic.CompareAndSwapInt32(&ab.isDestructorRunning, 0, 1) {
 					ab.doCleanup()
+					verifYield(10) // verif: Release after cleanup, before unlock
 					atomic.CompareAndSwapInt32(&ab.isDestructorRunning, 1, 0)
 				}
 			}
@@ -194,18 +203,21 @@ func (ab *AccessBarrier) Release(bs *BarrierSession) {
 // The caller should provide the destructor pointer for the new session.
 func (ab *AccessBarrier) FlushSession(ref unsafe.Pointer) {
 	if ab.active {
+		verifLockWait(&ab.Mutex) // verif: cooperative wait for the mutex
 		ab.Lock()
 		defer ab.Unlock()
 
 		bsPtr := atomic.LoadPointer(&ab.session)
 		newBsPtr := unsafe.Pointer(newBarrierSession())
 		atomic.CompareAndSwapPointer(&ab.session, bsPtr, newBsPtr)
+		verifYield(11) // verif: FlushSession after swap
 		bs := (*BarrierSession)(bsPtr)
 		bs.objectRef = ref
 		ab.activeSeqno++
 		bs.seqno = ab.activeSeqno
 		ab.numAllocated++
 
+		verifYield(12) // verif: FlushSession before offset add
 		atomic.AddInt32(bs.liveCount, barrierFlushOffset+1)
 		ab.Release(bs)
 	}
